@@ -339,32 +339,26 @@ func runC11(c *Ctx) {
 			}
 		})
 		// the lookup: a Lookup with CommaOk on a map obtained by Lookup on the table field
+		// the lookup itself, or a same-package helper that returns its verdict (robust_A6.go)
+		isTbl := func(v ssa.Value) bool { return isFieldAccess(v, fsmT, tblField) }
 		lookupGuard := func(b *ssa.BasicBlock) (bool, string) {
 			for _, g := range guardsOf(b) {
 				v, br := boolOf(g)
-				ex, ok := v.(*ssa.Extract)
-				if !ok || ex.Index != 1 {
+				k1, k2, positive, ok := tableLookupOKA6(v, nil, isTbl, 2)
+				if !ok {
 					continue
 				}
-				lk, ok := ex.Tuple.(*ssa.Lookup)
-				if !ok || !lk.CommaOk {
-					continue
-				}
-				inner, ok := strip(lk.X).(*ssa.Lookup)
-				if !ok || !isFieldAccess(inner.X, fsmT, tblField) {
-					continue
-				}
-				// keys: inner.Index = m.current.Status(), lk.Index = ev.Status()
+				// keys: k1 = m.current.Status(), k2 = ev.Status()
 				k1ok, k2ok := false, false
-				if call, ok := inner.Index.(*ssa.Call); ok && isMethod(calleeOf(call), pkgCompStatus, "Event", "Status") && len(call.Call.Args) == 1 && isFieldAccess(call.Call.Args[0], fsmT, curField) {
+				if call, ok := strip(k1).(*ssa.Call); ok && isMethod(calleeOf(call), pkgCompStatus, "Event", "Status") && len(call.Call.Args) == 1 && isFieldAccess(call.Call.Args[0], fsmT, curField) {
 					k1ok = true
 				}
-				if call, ok := lk.Index.(*ssa.Call); ok && isMethod(calleeOf(call), pkgCompStatus, "Event", "Status") && len(call.Call.Args) == 1 {
-					if _, isParam := strip(call.Call.Args[0]).(*ssa.Parameter); isParam {
+				if call, ok := strip(k2).(*ssa.Call); ok && isMethod(calleeOf(call), pkgCompStatus, "Event", "Status") && len(call.Call.Args) == 1 {
+					if prm, isParam := strip(call.Call.Args[0]).(*ssa.Parameter); isParam && prm.Parent() == fn {
 						k2ok = true
 					}
 				}
-				if !br {
+				if br != positive {
 					return false, "guarded by the lookup-failed side"
 				}
 				if !k1ok || !k2ok {
